@@ -63,6 +63,10 @@ func (ex *Exec) applyCall(st *State, fr *Frame, instr ssa.Instruction, c *ssa.Ca
 			fr2.callSnaps = map[string]map[string]string{}
 		}
 		fr2.callSnaps[calleeName(c, fnv)] = st2.snapshot()
+		if fr2.callRets == nil {
+			fr2.callRets = map[string]Val{}
+		}
+		fr2.callRets[calleeName(c, fnv)] = ret
 		k0(st2, fr2, ret)
 	}
 	// builtins
@@ -281,8 +285,9 @@ func (ex *Exec) atCall(st *State, fr *Frame, instr ssa.Instruction, name string,
 	if fr.spec == nil || len(fr.spec.AtCall) == 0 {
 		return
 	}
+	alt := ex.shortCallee(instr)
 	for _, c := range fr.spec.AtCall {
-		if !strings.Contains(name, c.Callee) {
+		if !strings.Contains(name, c.Callee) && !(alt != "" && strings.Contains(alt, c.Callee)) {
 			continue
 		}
 		if c.Ord >= 0 && ex.siteOrdinal(fr.fn, instr, c.Callee) != c.Ord {
@@ -293,9 +298,21 @@ func (ex *Exec) atCall(st *State, fr *Frame, instr ssa.Instruction, name string,
 			extra[fmt.Sprintf("arg%d", i)] = a
 		}
 		g := ex.evalClause(st, fr, c, extra)
-		ex.covers[fr.key+"/"+c.name()] = true
+		ex.covers[fr.key+"/atcall/"+c.name()+"/"+c.Callee] = true
 		ex.oblige(st, "atcall", fmt.Sprintf("%s/%s", fr.key, c.name()), c.Labels, g, c, ex.posOf(instr))
 	}
+}
+
+// shortCallee: the contract-file key of a statically known callee in the module (or "")
+func (ex *Exec) shortCallee(instr ssa.Instruction) string {
+	ci, ok := instr.(ssa.CallInstruction)
+	if !ok {
+		return ""
+	}
+	if fn := ci.Common().StaticCallee(); fn != nil {
+		return ex.prog.Keys[fn]
+	}
+	return ""
 }
 
 // siteOrdinal: index of instr among the call sites in fn whose callee name contains substr, by source order.
@@ -326,7 +343,11 @@ func (ex *Exec) siteOrdinal(fn *ssa.Function, instr ssa.Instruction, substr stri
 				continue
 			}
 			nm := calleeName(c, Val{})
-			if strings.Contains(nm, substr) {
+			short := ""
+			if sf := c.StaticCallee(); sf != nil {
+				short = ex.prog.Keys[sf]
+			}
+			if strings.Contains(nm, substr) || (short != "" && strings.Contains(short, substr)) {
 				sites = append(sites, site{int(in.Pos())*1000 + n%1000, in})
 			}
 		}
